@@ -50,7 +50,7 @@ KINDS = ["vector", "vector", "array", "float", "int", "ndarray", "quantity"]
 def plan(tier):
     return {"shards": 16, "timeout": 900 if tier == "quick" else 4 * 3600,
             "required_monitors": ["lift-oracle", "nvec-mismatch-must-raise", "norm-oracle", "dot-oracle",
-                                  "cross-oracle", "product-laws"]}
+                                  "cross-oracle", "product-laws", "stateful-reads"]}
 
 
 def cases(ctx):
@@ -66,6 +66,8 @@ def cases(ctx):
     n = 3000 if ctx.tier == "quick" else 200000
     for i in range(n):
         out.append({"id": f"r{i}", "i": i})
+    for i in range(n // 10):
+        out.append({"id": f"st{i}", "i": i, "stateful": True})
     return out
 
 
@@ -87,6 +89,8 @@ def _same_component(got, exp):
 
 def run_case(case, ctx, res):
     osy = ctx.osyris
+    if case.get("stateful"):
+        return _stateful(osy, ctx.rng("stateful", case["i"]), res)
     if case.get("fixed"):
         rng = np.random.default_rng(np.random.SeedSequence([20240209, 9, case["i"]]))
         kind, nvec, rel, dt1 = case["kind"], case["nvec"], case["rel"], case["dtype"]
@@ -362,3 +366,64 @@ def _cross(osy, rng, res, sig, v, c1, u1, c2, u2, dt1, dt2, nvec, shape):
         rhs = na2 * nb2
         if np.any(np.abs(lhs - rhs) > 64 * rt * np.abs(rhs)):
             res.violate("law-lagrange", f"|a x b|^2 + (a.b)^2 != |a|^2 |b|^2 with units {u1!r},{u2!r}", sig=sig)
+
+
+def _stateful(osy, rng, res):
+    """norm / dot / cross are functions of the components *at the time of the call*: interleave reads with
+    in-place changes made through other references (older wrapper, slice view, component buffer, returned
+    norm Array)"""
+    nvec = int(rng.integers(1, 4))
+    n = int(rng.integers(3, 7))
+    u1 = gen.draw_unit(rng, gen.draw_family(rng))
+    comps = [gen.draw_values(rng, (n,), "float64", small=True, nonzero=True) for _ in range(nvec)]
+    v = _vec(osy, [c.copy() for c in comps], u1, "v")
+    old = v                  # an older reference to the same Vector
+    steps = []
+    res.nontrivial = True
+    res.digest_src = {"stateful": True, "nvec": nvec, "n": n, "u": u1}
+
+    def check(label):
+        res.count("stateful-reads")
+        cur = [np.asarray(c.values, dtype=np.longdouble) for c in old._xyz.values()]
+        exp = Q.of(np.sqrt(sum(c * c for c in cur)), old.unit)
+        with np.errstate(all="ignore"):
+            o = attempt(lambda: old.norm)
+        if not o.ok:
+            res.violate("raised-unexpectedly", f"{label}: norm {o.describe()}", steps=steps)
+            return None
+        msg = compare_quantity(o.value.values, o.value.unit, exp, 64 * rtol_for("float64"))
+        if msg:
+            res.violate("norm-stale", f"{label} after {steps}: norm is not the Euclidean norm of the current components: {msg}",
+                        steps=steps)
+            return None
+        if nvec == 3:
+            w = _vec(osy, [np.ones(n), np.zeros(n), np.zeros(n)], "")
+            d = attempt(lambda: old.dot(w))
+            if d.ok:
+                m2 = compare_quantity(d.value.values, d.value.unit, Q.of(cur[0], old.unit), 64 * rtol_for("float64"), np.abs(cur[0]))
+                if m2:
+                    res.violate("dot-stale", f"{label} after {steps}: v.dot(e_x) is not the current x component: {m2}", steps=steps)
+                    return None
+        return o.value
+    for step in range(int(rng.integers(2, 7))):
+        r = check(f"read {step}")
+        if r is None:
+            return
+        op = ["iop-wrapper", "view", "buffer", "scale-returned-norm", "component-iop", "unit-rebind"][int(rng.integers(0, 6))]
+        steps.append(op)
+        if op == "iop-wrapper":
+            v *= 2.0                         # Python rebinds v to the returned wrapper; `old` shares the buffers
+        elif op == "view":
+            part = old[1:3]
+            part *= 10.0
+        elif op == "buffer":
+            c = list(old._xyz.values())[int(rng.integers(0, nvec))]
+            c.values[int(rng.integers(0, n))] = float(rng.integers(1, 50))
+        elif op == "scale-returned-norm":
+            r *= 3.0                         # the caller owns the returned Array
+        elif op == "component-iop":
+            old.x *= 0.5
+        else:
+            pass
+    check("final read")
+    res.sample = {"nvec": nvec, "unit": u1, "steps": steps}
